@@ -17,16 +17,17 @@ func init() {
 
 // convArm is one clause of a conversion type switch.
 type convArm struct {
-	caseTypes []types.Type // nil entry = `case nil`
-	isDefault bool
-	results   []ast.Expr // expressions assigned to the result variable / returned as first result
-	clause    *ast.CaseClause
-	makes     map[types.Object]*ast.CallExpr // locals defined by make(...)
-	recurses  bool                           // calls the enclosing function on a range value
-	rangesV   bool                           // ranges over the switch variable
-	makeLenV  bool                           // make(C, len(v))
-	nilTest   bool                           // compares the switch variable with nil
-	setsErr   bool                           // assigns / returns a non-nil error
+	caseTypes  []types.Type // nil entry = `case nil`
+	isDefault  bool
+	results    []ast.Expr // expressions assigned to the result variable / returned as first result
+	clause     *ast.CaseClause
+	makes      map[types.Object]*ast.CallExpr // locals defined by make(...)
+	recurses   bool                           // calls the enclosing function on a range value
+	rangesV    bool                           // ranges over the switch variable
+	makeLenV   bool                           // make(C, len(v))
+	nilTest    bool                           // compares the switch variable with nil
+	setsErr    bool                           // assigns / returns a non-nil error
+	freshCalls map[ast.Expr]bool              // calls of helpers that return a container they made
 }
 
 type convFunc struct {
@@ -84,40 +85,51 @@ func parseConvFunc(l *Loaded, name string) *convFunc {
 			}
 		}
 		sv := info.Implicits[cl] // the switch variable in this clause
-		ast.Inspect(cl, func(n ast.Node) bool {
-			switch x := n.(type) {
-			case *ast.AssignStmt:
-				for i, lh := range x.Lhs {
-					id, ok := lh.(*ast.Ident)
-					if !ok || i >= len(x.Rhs) && len(x.Rhs) != 1 {
-						continue
+		cf.scanArm(arm, cl, sv, cf.ret, fo, l, 0)
+		cf.arms = append(cf.arms, arm)
+	}
+	return cf
+}
+
+// scanArm collects the facts of one arm from node (the case clause, or the
+// body of a helper the arm delegates to): sv is the operand variable, ret the
+// named result variable (nil in a helper, whose results are its return
+// statements).
+func (cf *convFunc) scanArm(arm *convArm, node ast.Node, sv, ret types.Object, fo *types.Func, l *Loaded, depth int) {
+	info := cf.pkg.TypesInfo
+	ast.Inspect(node, func(n ast.Node) bool {
+		switch x := n.(type) {
+		case *ast.AssignStmt:
+			for i, lh := range x.Lhs {
+				id, ok := lh.(*ast.Ident)
+				if !ok || i >= len(x.Rhs) && len(x.Rhs) != 1 {
+					continue
+				}
+				var o types.Object
+				if x.Tok == token.DEFINE {
+					o = info.Defs[id]
+				} else {
+					o = info.Uses[id]
+				}
+				if o == nil {
+					continue
+				}
+				if len(x.Rhs) == len(x.Lhs) {
+					rh := x.Rhs[i]
+					if o == ret && ret != nil {
+						arm.results = append(arm.results, rh)
 					}
-					var o types.Object
-					if x.Tok == token.DEFINE {
-						o = info.Defs[id]
-					} else {
-						o = info.Uses[id]
+					if o == cf.err && cf.err != nil {
+						arm.setsErr = true
 					}
-					if o == nil {
-						continue
-					}
-					if len(x.Rhs) == len(x.Lhs) {
-						rh := x.Rhs[i]
-						if o == cf.ret {
-							arm.results = append(arm.results, rh)
-						}
-						if o == cf.err && cf.err != nil {
-							arm.setsErr = true
-						}
-						if call, ok := ast.Unparen(rh).(*ast.CallExpr); ok {
-							if fid, ok := call.Fun.(*ast.Ident); ok && info.Uses[fid] == types.Universe.Lookup("make") {
-								arm.makes[o] = call
-								if len(call.Args) >= 2 {
-									if lc, ok := ast.Unparen(call.Args[1]).(*ast.CallExpr); ok && len(lc.Args) == 1 {
-										if lf, ok := lc.Fun.(*ast.Ident); ok && info.Uses[lf] == types.Universe.Lookup("len") {
-											if aid, ok := ast.Unparen(lc.Args[0]).(*ast.Ident); ok && info.Uses[aid] == sv {
-												arm.makeLenV = true
-											}
+					if call, ok := ast.Unparen(rh).(*ast.CallExpr); ok {
+						if fid, ok := call.Fun.(*ast.Ident); ok && info.Uses[fid] == types.Universe.Lookup("make") {
+							arm.makes[o] = call
+							if len(call.Args) >= 2 {
+								if lc, ok := ast.Unparen(call.Args[1]).(*ast.CallExpr); ok && len(lc.Args) == 1 {
+									if lf, ok := lc.Fun.(*ast.Ident); ok && info.Uses[lf] == types.Universe.Lookup("len") {
+										if aid, ok := ast.Unparen(lc.Args[0]).(*ast.Ident); ok && info.Uses[aid] == sv {
+											arm.makeLenV = true
 										}
 									}
 								}
@@ -125,46 +137,103 @@ func parseConvFunc(l *Loaded, name string) *convFunc {
 						}
 					}
 				}
-			case *ast.ReturnStmt:
-				if len(x.Results) >= 1 {
-					if tv, ok := info.Types[x.Results[0]]; !ok || !tv.IsNil() {
-						arm.results = append(arm.results, x.Results[0])
-					}
-					if len(x.Results) == 2 {
-						if tv, ok := info.Types[x.Results[1]]; !ok || !tv.IsNil() {
-							arm.setsErr = true
-						}
+			}
+		case *ast.ReturnStmt:
+			if len(x.Results) >= 1 {
+				if tv, ok := info.Types[x.Results[0]]; !ok || !tv.IsNil() {
+					arm.results = append(arm.results, x.Results[0])
+				}
+				if len(x.Results) == 2 {
+					if tv, ok := info.Types[x.Results[1]]; !ok || !tv.IsNil() {
+						arm.setsErr = true
 					}
 				}
-			case *ast.RangeStmt:
-				if id, ok := ast.Unparen(x.X).(*ast.Ident); ok && sv != nil && info.Uses[id] == sv {
+			}
+		case *ast.RangeStmt:
+			if id, ok := ast.Unparen(x.X).(*ast.Ident); ok && sv != nil && info.Uses[id] == sv {
+				arm.rangesV = true
+			}
+			if se, ok := ast.Unparen(x.X).(*ast.SelectorExpr); ok {
+				if id, ok := ast.Unparen(se.X).(*ast.Ident); ok && sv != nil && info.Uses[id] == sv {
 					arm.rangesV = true
 				}
-				if se, ok := ast.Unparen(x.X).(*ast.SelectorExpr); ok {
-					if id, ok := ast.Unparen(se.X).(*ast.Ident); ok && sv != nil && info.Uses[id] == sv {
-						arm.rangesV = true
-					}
-				}
-			case *ast.CallExpr:
-				if fid, ok := x.Fun.(*ast.Ident); ok && info.Uses[fid] == types.Object(fo) {
-					arm.recurses = true
-				}
-			case *ast.BinaryExpr:
-				if x.Op == token.NEQ || x.Op == token.EQL {
-					for _, pr := range [][2]ast.Expr{{x.X, x.Y}, {x.Y, x.X}} {
-						if id, ok := ast.Unparen(pr[0]).(*ast.Ident); ok && sv != nil && info.Uses[id] == sv {
-							if tv, ok := info.Types[pr[1]]; ok && tv.IsNil() {
-								arm.nilTest = true
-							}
+			}
+		case *ast.CallExpr:
+			if fid, ok := x.Fun.(*ast.Ident); ok && info.Uses[fid] == types.Object(fo) {
+				arm.recurses = true
+			}
+		case *ast.BinaryExpr:
+			if x.Op == token.NEQ || x.Op == token.EQL {
+				for _, pr := range [][2]ast.Expr{{x.X, x.Y}, {x.Y, x.X}} {
+					if id, ok := ast.Unparen(pr[0]).(*ast.Ident); ok && sv != nil && info.Uses[id] == sv {
+						if tv, ok := info.Types[pr[1]]; ok && tv.IsNil() {
+							arm.nilTest = true
 						}
 					}
 				}
 			}
-			return true
-		})
-		cf.arms = append(cf.arms, arm)
+		}
+		if depth == 0 {
+			cf.delegate(arm, n, sv, fo, l)
+		}
+		return true
+	})
+}
+
+// delegate: a result of the arm computed by a helper of the same package that
+// receives the operand (v or v.Field) as its only argument: the helper's body
+// is scanned as if it were part of the arm, with its parameter as operand;
+// the call counts as a fresh container when every value the helper returns is
+// a container it made itself.
+func (cf *convFunc) delegate(arm *convArm, n ast.Node, sv types.Object, fo *types.Func, l *Loaded) {
+	info := cf.pkg.TypesInfo
+	call, ok := n.(*ast.CallExpr)
+	if !ok || len(call.Args) != 1 || sv == nil {
+		return
 	}
-	return cf
+	fid, ok := ast.Unparen(call.Fun).(*ast.Ident)
+	if !ok {
+		return
+	}
+	ho, ok := info.Uses[fid].(*types.Func)
+	if !ok || ho == fo || ho.Pkg() != cf.pkg.Types {
+		return
+	}
+	arg := ast.Unparen(call.Args[0])
+	if se, ok := arg.(*ast.SelectorExpr); ok {
+		arg = ast.Unparen(se.X)
+	}
+	if id, ok := arg.(*ast.Ident); !ok || info.Uses[id] != sv {
+		return
+	}
+	hd := l.Decl(ho)
+	if hd == nil || hd.Body == nil || hd.Type.Params == nil || len(hd.Type.Params.List) != 1 || len(hd.Type.Params.List[0].Names) != 1 {
+		return
+	}
+	param := info.Defs[hd.Type.Params.List[0].Names[0]]
+	sub := &convArm{makes: map[types.Object]*ast.CallExpr{}}
+	cf.scanArm(sub, hd.Body, param, nil, fo, l, 1)
+	arm.makeLenV = arm.makeLenV || sub.makeLenV
+	arm.rangesV = arm.rangesV || sub.rangesV
+	arm.recurses = arm.recurses || sub.recurses
+	fresh := len(sub.results) > 0
+	for _, r := range sub.results {
+		if id, ok := ast.Unparen(r).(*ast.Ident); ok {
+			if _, isMake := sub.makes[info.Uses[id]]; isMake {
+				continue
+			}
+		}
+		if _, isLit := ast.Unparen(r).(*ast.CompositeLit); isLit {
+			continue
+		}
+		fresh = false
+	}
+	if fresh {
+		if arm.freshCalls == nil {
+			arm.freshCalls = map[ast.Expr]bool{}
+		}
+		arm.freshCalls[call] = true
+	}
 }
 
 // armFor returns the arm whose case list contains a type identical to t
@@ -399,6 +468,9 @@ func propC20(c *Ctx) {
 						}
 					}
 					if _, isLit := ast.Unparen(r).(*ast.CompositeLit); isLit {
+						continue
+					}
+					if a.freshCalls[ast.Unparen(r)] {
 						continue
 					}
 					probs = append(probs, "returns a value that is not the container built in this arm")
